@@ -153,8 +153,8 @@ def guarded(fn, *a, **kw):
     signal.alarm(CALL_BUDGET)
     try:
         o = eng.outcome(fn, *a, **kw)
-        if o[0] == 'raw' and o[1].endswith('_TO'):
-            return ('timeout',)
+        if o[0] == 'raw' and (o[1].endswith('_TO') or 'Query interrupted' in str(o[2])):
+            return ('timeout',)   # the wall-clock alarm fired inside the call (DuckDB reports it as an interrupt)
         return o
     except _TO:
         return ('timeout',)
